@@ -44,6 +44,9 @@ fn pair_scripts() -> Vec<(Vec<(usize, Step)>, usize)> {
     vec![
         (sequential(&[vec![link("v"), link("w"), act(&["@setv(1)", "@setw(1)"]), act(&["@setvs(2)", "@setws(2)"]), act(&["@setv(2)", "@setw(2)"])]]), 1),
         (sequential(&[vec![link("v"), act(&["@setvs(1)", "@setws(1)"]), act(&["@setv(2)", "@setw(2)"]), act(&["@setvs(2)", "@setws(2)"]), cmd("v", "3"), cmd("w", "3"), act(&["@setvs(3)", "@setws(3)"])]]), 1),
+        // a value with the empty encoding (None) is the last one handed to the store
+        (sequential(&[vec![link("o"), act(&["@seto(5)"]), act(&["@clro"])]]), 1),
+        (sequential(&[vec![sync("o"), act(&["@clro"]), act(&["@seto(6)", "@setv(1)"]), act(&["@clro"])]]), 1),
         (sequential(&[vec![sync("w"), cmd("w", "5"), act(&["@setws(6)", "@setvs(6)"]), cmd("w", "6"), cmd("v", "6"), act(&["@setws(5)"]), cmd("w", "5")]]), 1),
     ]
 }
